@@ -29,7 +29,7 @@ func (a *Act) execInstr(st *State, in ssa.Instruction, b *ssa.BasicBlock, incomi
 			}
 			st.cells[c] = a.zero(et)
 			if a.writeLog != nil {
-				a.writeLog.cells[c] = true
+				a.writeLog.noteCell(c, nil)
 			}
 			a.regs[x] = Val{T: x.Type(), Sort: sInt, P: &Ptr{Kind: ptrLocal, Local: c}}
 			return false
@@ -599,7 +599,8 @@ func (a *Act) makeIface(st *State, v Val, t types.Type) Val {
 		g.addAxiom("("+bx+" ", ax)
 		payload = app(bx, v.S)
 	}
-	return Val{S: fmt.Sprintf("(mk_Iface %d %s)", tagN, payload), Sort: sIface, T: t, Fn: v.Fn}
+	under := v
+	return Val{S: fmt.Sprintf("(mk_Iface %d %s)", tagN, payload), Sort: sIface, T: t, Fn: v.Fn, Under: &under}
 }
 
 func (a *Act) typeAssert(st *State, x *ssa.TypeAssert) Val {
